@@ -136,7 +136,8 @@ def parser_trees(ctx, names, dump=True):
 
 
 REASON_ASPECT = {'verdict': ('C01.trace', 'C12.trace'), 'value': ('C02.trace', 'C12.trace'), 'codemap': ('C05.trace', 'C12.trace'),
-                 'error': ('C07.trace', 'C07.trace'), 'pulls': ('C03.trace', 'C03.trace'), 'events': ('C05.trace', 'C05.trace')}
+                 'error': ('C07.trace', 'C07.trace'), 'pulls': ('C03.trace', 'C03.trace'), 'events': ('C05.trace', 'C05.trace'),
+                 'panic': ('C03.trace', 'C03.trace')}
 
 
 def parser_trace(ctx, aspects):
@@ -485,6 +486,74 @@ def c10(ctx):
                       'structure': 'C10.structure'})
 
 
+def reasons_trace(ctx, label, module, trace, mapping, describe, timeout=5000, rec_summary=None):
+    """Validate `trace` with a trace spec whose result is bad = <<line, reason>>; map reasons to aspects."""
+    mod = f'---- MODULE TRI_{label} ----\nEXTENDS {module}\n====\n'
+    cfg = 'SPECIFICATION TrSpec\nINVARIANT Result\nCHECK_DEADLOCK FALSE\n'
+    r = vp.tlc(f'{ctx.pid}_{label}', mod, cfg, workers=1, cache=False, env={'TRACE': trace}, timeout=timeout)
+    if not r['ok']:
+        raise ToolError(f'{module} failed: {r["violation"]}; see {r["out"]}')
+    res = None
+    for line in vp.tlc_lines(r['out'], '"{'):
+        rec = vp.unquote_tlc(line)
+        if rec.get('k') == 'trace_result':
+            res = rec
+    if res is None:
+        raise ToolError(f'{module} did not finish; see {r["out"]}')
+    lines = [x for x in open(trace).read().split('\n') if x]
+    mine, counts = [], {}
+    for l, why in res['bad']:
+        ev = json.loads(lines[l - 1])
+        if why == 'certificate':
+            raise ToolError(f'harness-side certificate is wrong at event {l} of {trace}: {lines[l - 1][:400]}')
+        counts[f'{ev["ev"]}:{why}'] = counts.get(f'{ev["ev"]}:{why}', 0) + 1
+        aspect = mapping(ev, why)
+        if aspect is None:
+            continue
+        d = {'what': describe(ev, why), 'reason': why, 'event_index': l, 'event_kind': ev['ev']}
+        d['event'] = ev if len(lines[l - 1]) < 6000 else {k: ev[k] for k in ev if k in ('ev', 'type', 'debug', 'value', 'out')}
+        mine.append((aspect, d))
+    summ = {'label': label, 'events': res['events'], 'validated': res['events'] - len(mine), 'rejected': len(mine), 'wall_s': r['wall_s'],
+            'distinct': res['events'], 'mismatch_counts': counts}
+    ctx.traces.append(summ)
+    ctx.mismatches.extend(mine[:80])
+    if rec_summary:
+        ctx.samples.extend(rec_summary.get('samples', [])[:2])
+    return res
+
+
+def serde_model(ctx):
+    return ctx.mc('serde_terms', 'MC_Serde', {}, {}, ['Dump', 'BuilderCollapses'], spec='SSpec')
+
+
+def c16(ctx):
+    r = serde_model(ctx)
+    ctx.replay([r['out']], ['C16.'])
+    trace, s = ctx.record('record-serde', 'serde16.ndjson', ['--n', 140 if ctx.quick else 3000, '--events', 'typed'])
+    reasons_trace(ctx, 'serde', 'TraceSerde', trace, lambda ev, why: 'C16.' + why,
+                  lambda ev, why: f'typed datum ({ev.get("type")}): {why}', rec_summary=s)
+    ctx.extra['rule'] = ('S->I: every small data-model term (5080) through json_syntax::Serializer (= specified encoding) and serde_json (same shape); '
+                         'I->S: instances of a derive family (structs, 4 variant kinds, options, tuples, sequences, maps keyed by strings / integers / '
+                         'chars / unit variants / newtype keys, 8-64 bit integers at their bounds, random-bit f32/f64, arbitrary Unicode): recorded term, '
+                         'Value, serde_json value, float certificates and the three round trips, validated by TraceSerde')
+
+
+def c17(ctx):
+    r = serde_model(ctx)
+    ctx.replay([r['out']], ['C17.'])
+    trace, s = ctx.record('record-serde', 'serde17.ndjson', ['--n', 150 if ctx.quick else 3000, '--events', 'value_ser,value_de,text_de'])
+    reasons_trace(ctx, 'serde', 'TraceSerde', trace, lambda ev, why: 'C17.' + why,
+                  lambda ev, why: f'Value through its own Serialize/Deserialize ({ev["ev"]}): {why}', rec_summary=s)
+
+
+def c18(ctx):
+    trace, s = ctx.record('record-serde', 'serde18.ndjson', ['--n', 200 if ctx.quick else 5000, '--events', 'sj_rt,js_rt'])
+    reasons_trace(ctx, 'serde', 'TraceSerde', trace, lambda ev, why: 'C18.' + why,
+                  lambda ev, why: f'conversion with serde_json::Value ({ev["ev"]}): {why}', rec_summary=s)
+    r = ctx.mc('serde_json_model', 'MC_SerdeJson', {}, {}, ['Laws', 'Dump'], spec='JSpec')
+    ctx.replay([r['out']], ['C18.'])
+
+
 def c20(ctx):
     r = ctx.mc('kindset', 'MC_KindSet', {}, {}, ['DumpIter', 'DumpSet', 'IterSound'], spec='KSpec', workers=4)
     ctx.replay([r['out']], ['C20.'], extra_args=['--value-kinds', '1'])
@@ -496,7 +565,7 @@ def c20(ctx):
 CHECKS = {
     'C01': c01, 'C02': c02, 'C03': c03, 'C05': c05, 'C07': c07, 'C12': c12,
     'C04': c04, 'C08': c08, 'C09': c09, 'C10': c10, 'C13': c13,
-    'C06': c06, 'C11': c11, 'C14': c14, 'C15': c15,
+    'C06': c06, 'C11': c11, 'C14': c14, 'C15': c15, 'C16': c16, 'C17': c17, 'C18': c18,
     'C20': c20,
 }
 
